@@ -34,9 +34,17 @@ Ev == Trace[l]
 
 Flag(cond, name) == IF cond THEN {} ELSE {name}
 
+\* runs that are stopped from outside mid-run (user cancel, forwarded provider failure): reports of shots in
+\* flight at the stop may be lost (PoolAgg.tla: late)
+StopModes == {"cancel", "provfail"}
+
 \* the abstract sample of a logged report
 Abs(s) == [sec |-> s.sec, ms |-> s.ms, tag |-> s.tag, id |-> s.id, f |-> s.f]
-Expect(s) == IF kind = "phout" THEN PhoutLine(Abs(s), ids) ELSE s
+\* kinds without a result file: "log" writes every sample through to the logger (the entry is the line),
+\* "discard" throws every sample away
+NoFile == {"log", "discard"}
+LogEntry(s) == "Sample reported: S" \o ToString(s.g) \o "-" \o ToString(s.i)
+Expect(s) == IF kind = "phout" THEN PhoutLine(Abs(s), ids) ELSE IF kind = "log" THEN LogEntry(s) ELSE s
 
 \* bags as functions; an entry may go down to 0
 AddN(bag, x, n) == IF x \in DOMAIN bag THEN [bag EXCEPT ![x] = @ + n] ELSE bag @@ (x :> n)
@@ -56,7 +64,7 @@ Report == /\ Ev.ev \in {"Report", "Reports"}
              /\ pending' = AddN(pending, Expect(Ev.s), n)
              /\ nrep' = nrep + n
           /\ bad' = bad \cup Flag(WellFormedSample(Abs(Ev.s)), "DriverSampleOutsideDomain")
-                        \cup Flag(~cancelled \/ mode = "cancel", "DriverReportAfterCancel")
+                        \cup Flag(~cancelled \/ mode \in StopModes, "DriverReportAfterCancel")
           /\ UNCHANGED <<kind, ids, mode, before, nmatched, nwritten, cancelled, closed, ended>>
 
 \* a complete line reached the sink
@@ -69,10 +77,12 @@ Written(x) == /\ LET m == Has(pending, x) IN
               /\ nwritten' = nwritten + 1
               /\ UNCHANGED <<kind, ids, mode, before, nrep, cancelled, closed, ended>>
 Line  == Ev.ev = "Line" /\ Written(Ev.c)
+LogLine == Ev.ev = "LogLine" /\ Ev.level = "info" /\ Written(Ev.msg)
 JLine == Ev.ev = "JLine" /\ Written(Ev.s)
 
-BadLine == /\ Ev.ev \in {"BadLine", "WriteAfterClose"}
-           /\ bad' = bad \cup (IF Ev.ev = "BadLine" THEN {"MalformedLine"} ELSE {"WriteAfterClose"})
+BadLine == /\ Ev.ev \in {"BadLine", "WriteAfterClose", "ReportBlocked"}
+           /\ bad' = bad \cup (IF Ev.ev = "BadLine" THEN {"MalformedLine"}
+                              ELSE IF Ev.ev = "ReportBlocked" THEN {"ReportBlockedWithRoomInTheQueue"} ELSE {"WriteAfterClose"})
            /\ nwritten' = nwritten + (IF Ev.ev = "BadLine" THEN 1 ELSE 0)
            /\ UNCHANGED <<kind, ids, mode, before, pending, nrep, nmatched, cancelled, closed, ended>>
 
@@ -88,23 +98,30 @@ SinkClosed == /\ Ev.ev = "SinkClosed"
 
 EngineEnd == /\ Ev.ev = "EngineEnd"
              /\ bad' = bad \cup Flag(~Ev.timeout, "EngineDidNotStop")
-                           \cup Flag(mode = "cancel" \/ Ev.err = "<nil>", "EngineRunFailed")
+                           \cup Flag(mode \in StopModes \/ Ev.err = "<nil>", "EngineRunFailed")
              /\ UNCHANGED <<kind, ids, mode, before, pending, nrep, nmatched, nwritten, cancelled, closed, ended>>
 
 \* Aggregator.Run returned: THE property (Aggregator!CompleteAtReturn on what is observable)
 RunEnd == /\ Ev.ev = "RunEnd"
           /\ ended' = TRUE
           /\ bad' = bad \cup Flag(~Ev.timeout, "RunDidNotReturn")
-                        \cup Flag(closed, "NotClosedAtReturn")
-                        \cup (IF mode = "cancel"
+                        \cup Flag(closed \/ kind \in NoFile, "NotClosedAtReturn")
+                        \cup Flag(kind = "discard" => nwritten = 0 /\ Ev.dropped = 0, "DiscardWroteOrCounted")
+                        \cup (IF mode \in StopModes
                               \* cancelled mid-run: shots in flight may report after the drain (Shutdown.tla: lateLost)
                               THEN Flag(before >= 0 /\ CompleteBetween(nwritten, Ev.dropped, before, nrep),
                                         "ReportsMadeBeforeTheCancelMissing")
+                              ELSE IF kind = "discard" THEN {}
                               ELSE Flag(CompleteCounts(nwritten, Ev.dropped, nrep), "LinesPlusDropsIsNotReports")
                                    \cup Flag(nrep - nmatched = Ev.dropped, "UnwrittenIsNotDropped"))
-                        \cup Flag(kind = "phout" => Ev.dropped = 0, "BlockingAggregatorDropped")
+                        \cup Flag(kind \in {"phout", "log"} => Ev.dropped = 0, "BlockingAggregatorDropped")
                         \cup Flag(Ev.err = "", "UnexpectedRunError")
           /\ UNCHANGED <<kind, ids, mode, before, pending, nrep, nmatched, nwritten, cancelled, closed>>
+
+\* discard: every borrowed sample was given back exactly once
+Returned == /\ Ev.ev = "Returned"
+            /\ bad' = bad \cup Flag(Ev.n = nrep, "BorrowedSampleNotReturnedOnce")
+            /\ UNCHANGED <<kind, ids, mode, before, pending, nrep, nmatched, nwritten, cancelled, closed, ended>>
 
 \* what the destination file finally holds is what the sink received
 Content == /\ Ev.ev = "Content"
@@ -113,7 +130,7 @@ Content == /\ Ev.ev = "Content"
 
 Next == /\ l <= Len(Trace)
         /\ l' = l + 1
-        /\ (Run \/ Report \/ Line \/ JLine \/ BadLine \/ Cancel \/ SinkClosed \/ EngineEnd \/ RunEnd \/ Content)
+        /\ (Run \/ Report \/ Line \/ JLine \/ LogLine \/ Returned \/ BadLine \/ Cancel \/ SinkClosed \/ EngineEnd \/ RunEnd \/ Content)
 
 Accepted == l <= Len(Trace) => ENABLED Next
 NoViolation == bad = {}
